@@ -87,7 +87,7 @@ pub fn describe_fd(fd: i32) -> Value {
     let mnt = if unsafe { libc::statx(fd, b"\0".as_ptr() as *const c_char, libc::AT_EMPTY_PATH, 0x1000 /* STATX_MNT_ID */, &mut stx) } == 0 { stx.stx_mnt_id as i64 } else { -1 };
     // where the kernel says the descriptor points (d_path), read through the numeric /proc/<pid>/fd/<n> so that over-mounts
     // of /proc/self or /proc/thread-self cannot redirect the harness itself
-    let fdpath = std::fs::read_link(format!("/proc/{}/fd/{}", std::process::id(), fd)).map(|p| p.to_string_lossy().to_string()).unwrap_or_default();
+    let fdpath = std::fs::read_link(format!("/proc/{}/task/{}/fd/{}", std::process::id(), unsafe { libc::syscall(libc::SYS_gettid) }, fd)).map(|p| p.to_string_lossy().to_string()).unwrap_or_default();
     json!({"ok": true, "fd": fd, "dev": st.st_dev, "ino": st.st_ino, "ft": crate::tree::kind_of(st.st_mode), "rawdev": st.st_dev, "rawino": st.st_ino,
            "mode": st.st_mode & 0o7777, "fl": fl, "cloexec": (fdfl & libc::FD_CLOEXEC) != 0, "nlink": st.st_nlink, "fstype": fstype, "mnt_id": mnt, "fdpath": fdpath})
 }
